@@ -101,7 +101,7 @@ void exec_ro(const J& plan) {
   for (int id : H.pool) {
     const HNode& n = H.nodes[id];
     bool ok = true; { std::vector<int> st{id}; std::set<int> vis; while (!st.empty() && ok) { int x = st.back(); st.pop_back(); if (!vis.insert(x).second) continue; const HNode& m = H.nodes[x]; if (m.kind == MK_TAG && m.kids.empty()) ok = false; int prev = -1; for (int k : m.kids) { if (k != prev) st.push_back(k); prev = k; } if (vis.size() > 5000) ok = false; } }
-    if (!ok) continue;
+    if (!ok || !H.small_enough(id, (uint64_t)4 << 20, 300000)) continue;   // the battery walks the whole expansion of every node: keep it bounded
     std::vector<const void*> blocks; std::vector<const cbor_item_t*> tn; impl_tree_blocks(n.impl, blocks, tn);
     for (auto* t : tn) if (seen.insert(t).second) nodes.push_back(t);
   }
